@@ -1,12 +1,234 @@
 import HcipyVerif.Model.Proto
+import HcipyVerif.Model.Serial
 
-/-! Line-protocol front end of the C16 model (stub: not built yet). -/
+/-!
+Line-protocol front end of the C16 model.
+
+A dictionary tree travels as one token without spaces:
+
+```
+T := N | T | F | i<int> | f<rat> | s<name> | a<dtype>(<n>,…)[<rat>,…] | l[T,…] | d{<key>:T,…}
+```
+
+Requests (after the `C16` token):
+
+* `dict coords|grid|field|basis <tree>` — `from_dict` then `to_dict`: `ok <tree>` or `err <kind>`
+* `pickle field <tree>` — `__getstate__`/`__setstate__` round trip, answer as for `dict`
+* `fits field new|old <tree>` — `write_field` then `read_field` through the FITS model:
+  `ok w=<ok|kind> img=<tree|N> r=<ok|kind|-> out=<tree|->`
+* `fits basis new|old <tree>` — the same for mode bases
+* `ravel [shape] [index]`, `unravel [shape] k`
+-/
 namespace HcipyVerif.Driver.C16
+open HcipyVerif.Proto HcipyVerif.Serial
 
 structure St where
   dummy : Unit := ()
 
+def keyName : Key → String
+  | .type => "type" | .delta => "delta" | .dims => "dims" | .zero => "zero" | .coords => "coords"
+  | .sepCoords => "separated_coords" | .system => "coordinate_system" | .weights => "weights"
+  | .values => "values" | .grid => "grid" | .tm => "transformation_matrix"
+  | .isSparse => "is_sparse" | .data => "data" | .indices => "indices" | .indptr => "indptr"
+  | .shape => "shape"
+
+def allKeys : List Key :=
+  [.type, .delta, .dims, .zero, .coords, .sepCoords, .system, .weights, .values, .grid, .tm,
+   .isSparse, .data, .indices, .indptr, .shape]
+
+def parseKey? (s : String) : Option Key := allKeys.find? fun k => keyName k == s
+
+def tagName : Tag → String
+  | .regular => "regular" | .separated => "separated" | .unstructured => "unstructured"
+  | .cartesian => "cartesian" | .polar => "polar" | .noneSys => "none" | .other => "other"
+
+def parseTag (s : String) : Tag :=
+  match [Tag.regular, .separated, .unstructured, .cartesian, .polar, .noneSys].find?
+      fun t => tagName t == s with
+  | some t => t
+  | none => .other
+
+def showNum : PyNum → String
+  | .int i => s!"i{i}"
+  | .float q => s!"f{showRat q}"
+
+def showArr (a : Arr) : String :=
+  "a" ++ a.dtype ++ "(" ++ ",".intercalate (a.shape.map toString) ++ ")[" ++
+    ",".intercalate (a.data.map showRat) ++ "]"
+
+mutual
+def showTree : Tree → String
+  | .null => "N"
+  | .bool b => if b then "T" else "F"
+  | .num x => showNum x
+  | .str s => "s" ++ tagName s
+  | .arr a => showArr a
+  | .list l => "l[" ++ showTrees l ++ "]"
+  | .dict kv => "d{" ++ showKvs kv ++ "}"
+def showTrees : List Tree → String
+  | [] => ""
+  | [t] => showTree t
+  | t :: r => showTree t ++ "," ++ showTrees r
+def showKvs : List (Key × Tree) → String
+  | [] => ""
+  | [(k, t)] => keyName k ++ ":" ++ showTree t
+  | (k, t) :: r => keyName k ++ ":" ++ showTree t ++ "," ++ showKvs r
+end
+
+def isNumChar (c : Char) : Bool := c.isDigit || c == '-' || c == '/'
+def isNameChar (c : Char) : Bool := c.isAlphanum || c == '_'
+
+/-- comma-separated tokens up to the closing character `close` -/
+def parseSeq {α} (p : String → Option α) (close : Char) (cs : List Char) :
+    Option (List α × List Char) :=
+  let (body, rest) := cs.span (· != close)
+  match rest with
+  | [] => none
+  | _ :: rest' =>
+    if body.isEmpty then some ([], rest')
+    else ((String.ofList body).splitOn ",").mapM p |>.map fun l => (l, rest')
+
+mutual
+def parseTree : Nat → List Char → Option (Tree × List Char)
+  | 0, _ => none
+  | _ + 1, 'N' :: r => some (.null, r)
+  | _ + 1, 'T' :: r => some (.bool true, r)
+  | _ + 1, 'F' :: r => some (.bool false, r)
+  | _ + 1, 'i' :: r =>
+    let (tok, rest) := r.span isNumChar
+    (parseInt? (String.ofList tok)).map fun i => (.num (.int i), rest)
+  | _ + 1, 'f' :: r =>
+    let (tok, rest) := r.span isNumChar
+    (parseRat? (String.ofList tok)).map fun q => (.num (.float q), rest)
+  | _ + 1, 's' :: r =>
+    let (tok, rest) := r.span isNameChar
+    some (.str (parseTag (String.ofList tok)), rest)
+  | _ + 1, 'a' :: r =>
+    let (dt, rest) := r.span isNameChar
+    match rest with
+    | '(' :: rest =>
+      match parseSeq parseNat? ')' rest with
+      | some (shape, '[' :: rest) =>
+        match parseSeq parseRat? ']' rest with
+        | some (data, rest) => some (.arr ⟨String.ofList dt, shape, data⟩, rest)
+        | none => none
+      | _ => none
+    | _ => none
+  | fuel + 1, 'l' :: '[' :: r =>
+    match r with
+    | ']' :: rest => some (.list [], rest)
+    | _ => (parseItems fuel r).map fun (l, rest) => (.list l, rest)
+  | fuel + 1, 'd' :: '{' :: r =>
+    match r with
+    | '}' :: rest => some (.dict [], rest)
+    | _ => (parseKvs fuel r).map fun (l, rest) => (.dict l, rest)
+  | _ + 1, _ => none
+def parseItems : Nat → List Char → Option (List Tree × List Char)
+  | 0, _ => none
+  | fuel + 1, cs =>
+    match parseTree fuel cs with
+    | some (t, ',' :: rest) => (parseItems fuel rest).map fun (l, rest') => (t :: l, rest')
+    | some (t, ']' :: rest) => some ([t], rest)
+    | _ => none
+def parseKvs : Nat → List Char → Option (List (Key × Tree) × List Char)
+  | 0, _ => none
+  | fuel + 1, cs =>
+    let (kn, rest) := cs.span isNameChar
+    match parseKey? (String.ofList kn), rest with
+    | some k, ':' :: rest =>
+      match parseTree fuel rest with
+      | some (t, ',' :: rest) => (parseKvs fuel rest).map fun (l, rest') => ((k, t) :: l, rest')
+      | some (t, '}' :: rest) => some ([(k, t)], rest)
+      | _ => none
+    | _, _ => none
+end
+
+def parseTree? (s : String) : Option Tree :=
+  let cs := s.toList
+  match parseTree (cs.length + 1) cs with
+  | some (t, []) => some t
+  | _ => none
+
+def showErr : Err → String
+  | .key => "key" | .value => "value" | .type => "type" | .attr => "attr"
+
+def answer : Except Err Tree → String
+  | .ok t => "ok " ++ showTree t
+  | .error e => "err " ++ showErr e
+
+def status {α} : Except Err α → String
+  | .ok _ => "ok"
+  | .error e => showErr e
+
+def showImage (f : Except Err FitsFile) : String :=
+  match f with
+  | .ok ⟨some a, _⟩ => showArr a
+  | _ => "N"
+
+def fitsAnswer {α} (w : Except Err FitsFile) (rd : FitsFile → Except Err α)
+    (td : α → Except Err Tree) : String :=
+  match w with
+  | .error e => s!"ok w={showErr e} img=N r=- out=-"
+  | .ok file =>
+    let r := rd file
+    let out := match r with
+      | .ok x => match td x with
+        | .ok t => showTree t
+        | .error e => "toDict:" ++ showErr e
+      | .error _ => "-"
+    s!"ok w=ok img={showImage w} r={status r} out={out}"
+
 def step (st : St) : List String → St × String
+  | ["dict", "coords", t] =>
+    match parseTree? t with
+    | some t => (st, answer ((Coords.fromDict t).map Coords.toDict))
+    | none => (st, "bad-op")
+  | ["dict", "grid", t] =>
+    match parseTree? t with
+    | some t => (st, answer ((Grid.fromDict t).map Grid.toDict))
+    | none => (st, "bad-op")
+  | ["dict", "field", t] =>
+    match parseTree? t with
+    | some t => (st, answer ((Field.fromDict t).map Field.toDict))
+    | none => (st, "bad-op")
+  | ["dict", "basis", t] =>
+    match parseTree? t with
+    | some t => (st, answer ((ModeBasis.fromDict t).bind ModeBasis.toDict))
+    | none => (st, "bad-op")
+  | ["pickle", "field", t] =>
+    match parseTree? t with
+    | some t => (st, answer ((Field.fromDict t).map fun f => (Field.setState f.getState).toDict))
+    | none => (st, "bad-op")
+  | ["fits", "field", which, t] =>
+    match parseTree? t, which with
+    | some t, "new" =>
+      match Field.fromDict t with
+      | .ok f => (st, fitsAnswer (writeFieldFits f) readFieldFits (fun x => .ok x.toDict))
+      | .error e => (st, "err " ++ showErr e)
+    | some t, "old" =>
+      match Field.fromDict t with
+      | .ok f => (st, fitsAnswer (writeFieldFits f) readFieldFitsOld (fun x => .ok x.toDict))
+      | .error e => (st, "err " ++ showErr e)
+    | _, _ => (st, "bad-op")
+  | ["fits", "basis", which, t] =>
+    match parseTree? t, which with
+    | some t, "new" =>
+      match ModeBasis.fromDict t with
+      | .ok b => (st, fitsAnswer (writeBasisFits b) readBasisFits ModeBasis.toDict)
+      | .error e => (st, "err " ++ showErr e)
+    | some t, "old" =>
+      match ModeBasis.fromDict t with
+      | .ok b => (st, fitsAnswer (writeBasisFitsOld b) readBasisFitsOld ModeBasis.toDict)
+      | .error e => (st, "err " ++ showErr e)
+    | _, _ => (st, "bad-op")
+  | ["ravel", shape, idx] =>
+    match parseNatList? shape, parseNatList? idx with
+    | some s, some i => if s.length = i.length then (st, s!"ok {ravel s i}") else (st, "bad-op")
+    | _, _ => (st, "bad-op")
+  | ["unravel", shape, k] =>
+    match parseNatList? shape, parseNat? k with
+    | some s, some k => (st, "ok " ++ showNatList (unravel s k))
+    | _, _ => (st, "bad-op")
   | _ => (st, "bad-op")
 
 end HcipyVerif.Driver.C16
